@@ -6,14 +6,14 @@ ROOT = os.path.dirname(os.path.dirname(os.path.abspath(__file__)))
 props = [json.loads(l) for l in open(os.path.join(ROOT, "properties.jsonl"))]
 
 CLAIMED = {
- "C01": dict(category="exploration",
-   text="Schedule exploration at filesystem-call granularity of real processes (the interposer's gate lets exactly one participant run between two of its calls): for every call boundary of every participant a context switch to the others (thorough: two switches, three participants, random schedules) over set/put/ensure/promotion/Replace/touch/get/maintenance families on plain, sharded and stacked caches with multi-chunk values. Oracles: every returned handle reads a complete value of its key at return and again after the others ran; at EVERY scheduling point every key-named file on disk is complete and read-only. Every explored schedule is replayed on the interleaving semantics of the Rocq model (Conc/Pool.v, slots of program trees over one shared filesystem) and results, traces and final tree must agree.",
-   ref="DESIGN.md section 6 C01", technique="systematic schedule exploration of real processes + replay of each schedule on the Rocq pool model (interleaving theorem over the model: in progress)",
-   note="Level stated as exploration: the kernel-checked part today is the pool semantics' adequacy lemmas and every all-environment theorem (C15, C16, C20) lifted to pools by pool_wp; the invariant proof 'published inodes are complete and never written' over all schedules is not finished. Threads sharing one handle are not explored."),
+ "C01": dict(
+   text="Kernel-checked over the interleaving semantics of the model (Conc/Pool.v: participants = program trees + private state over ONE shared filesystem, a slot = one gated call), for every pool, every schedule, every environment: (1) the library follows the write discipline (contents are written only through descriptors the writer itself obtained from an exclusive create / O_TMPFILE; nothing is truncated; no existing file is opened read-write) - proved per operation for arbitrary call results (C01_*_disciplined, callbacks of the harness included); (2) therefore, from ANY reachable state, an inode on which no read-write descriptor is open keeps its contents forever, whatever anybody does and wherever anybody stalls or dies (C01_contents_immutable_from_any_reachable_state, by an invariant over sem + the per-participant monitors). Tie and completeness of the published bytes: schedule exploration of real processes at filesystem-call granularity (every call boundary x context switch; thorough: two switches, three participants, random), every returned handle read at return and again later, every key-named file inspected at EVERY scheduling point, each schedule replayed on the model's pool semantics (results, traces, final tree equal).",
+   ref="DESIGN.md section 0.3 and 6 C01", technique="Rocq proof (invariant over the filesystem semantics and per-participant trace monitors, lifted to all schedules) + systematic schedule exploration of real processes replayed on the extracted pool model",
+   note="Partial in one respect, stated plainly: that the bytes published are the writer's COMPLETE value is proved sequentially (C13 matrix) and checked under every explored schedule, but is not yet a theorem over all schedules; immutability after publication and the discipline are. Threads sharing one handle are not explored (processes are)."),
  "C02": dict(category="fault_enumeration",
    text="Crash-point enumeration: every publishing operation x front-end x pre-state is killed (_exit in the interposer) before EVERY one of its filesystem calls; fresh processes then snapshot the tree, run get/touch/put/set/ensure, and two hours later (scripted clock) write with maintenance firing. Oracles: key-named files complete and read-only, debris only under .kismet_temp, later operations succeed with normal semantics, young debris left alone, stale debris of a maintained directory reclaimed; the model crashed at the same call (run_crash) must agree on traces, results and all snapshots.",
    ref="DESIGN.md section 6 C02", technique="crash-point enumeration through an LD_PRELOAD interposer against the Rocq model crashed at the same call (general theorem over crash positions: in progress)",
-   note="Process death only, as the property states. Level stated as fault enumeration until the theorem over all crash positions is finished."),
+   note="Process death only, as the property states. Kernel-checked: every crash point of every participant is a schedule, so C02_crash_anywhere_keeps_published_contents (the interleaving theorem) gives 'no partial entry ever becomes visible by a crash'; usability afterwards, debris placement and reclamation are established by the enumeration."),
  "C04": dict(category="exploration",
    text="Schedule exploration (as C01) of 2-3 participants x 1-3 operations from {set, put, get, touch, ensure} on one key of a plain cache, key initially absent or present; the call/return history in scheduler steps is searched exhaustively for a linearization against the sequential register specification (set overwrites, put fills only an absent key, touch reports presence, ensure = put then lookup); every schedule replayed on the Rocq pool model.",
    ref="DESIGN.md section 6 C04", technique="systematic schedule exploration + linearizability checking (Wing-Gong search) + replay on the Rocq pool model (linearization-point theorem: in progress)",
